@@ -6,7 +6,7 @@ event history of ONE rank of a real run through `YgmVerif.Cache.step` (variant `
 `YgmVerif.PinnedCache.step` (variant `pinned`).
 
   cache:   `<variant> <nslots> | <tokens>`
-  reduce:  `<variant> <nslots> <opid> <me> <k:owner,k:owner,...> | <tokens>`     opid 0 sum 1 max 2 xor
+  reduce:  `<variant> <nslots> <opid> <me> <k:owner,k:owner,...> | <tokens>`     opid 0 sum 1 max 2 xor 3 min 4 product mod 1000003 5 and 6 signed max
            `hop <p> <me> <dest>`  ->  next NLNR hop
   tokens:  `I k v` insert/reduce begins   `P k v` the real code packed (k, v)   `R` send returned
            `D` insert returned   `FB` / `FE` pre-barrier callback begins / ends   `B` barrier() returned
@@ -38,10 +38,17 @@ def pinnedM (cfg : YgmVerif.PinnedCache.PCfg Nat) : Machine :=
     pending := YgmVerif.PinnedCache.pending cfg,
     reg := (·.reg), depth := (·.stack.length), cache := (·.cache) }
 
+/-- operators of the harness; 3–6 have no neutral element among the values used (and the
+value-initialised 0 is absorbing or dominating for them) -/
 def opOf : Nat → Nat → Nat → Nat
   | 0 => (· + ·)
   | 1 => max
-  | _ => Nat.xor
+  | 2 => Nat.xor
+  | 3 => min
+  | 4 => fun a b => (a % 1000003) * (b % 1000003) % 1000003
+  | 5 => Nat.land
+  | _ => fun a b =>   -- max of 64-bit two's-complement values
+    if (a + 9223372036854775808) % 18446744073709551616 > (b + 9223372036854775808) % 18446744073709551616 then a else b
 
 structure Acc (M : Machine) where
   st : M.σ
